@@ -6,6 +6,7 @@ pub mod c05;
 pub mod c06;
 pub mod c07;
 pub mod c08;
+pub mod c09;
 
 use crate::pool::Merged;
 use crate::shard::Shard;
@@ -39,7 +40,7 @@ impl Prop {
 }
 
 pub fn registry() -> Vec<Prop> {
-    vec![c01::prop(), c02::prop(), c03::prop(), c04::prop(), c05::prop(), c06::prop(), c07::prop(), c08::prop()]
+    vec![c01::prop(), c02::prop(), c03::prop(), c04::prop(), c05::prop(), c06::prop(), c07::prop(), c08::prop(), c09::prop()]
 }
 
 pub fn find(id: &str) -> Option<Prop> {
